@@ -196,6 +196,8 @@ class State:
     def __init__(self):
         self.env = {}
         self.pc = []
+        self.fresh_slots = set()   # source text of container slots that were assigned a newly allocated object in this activation
+        self.aliases = {}      # local name -> AST of the container element / attribute it was read from (write-through on mutation)
 
 
 # =====================================================================================================
@@ -554,6 +556,13 @@ class Interp:
         v = self.eval(s.value)
         for tgt in s.targets:
             self.assign(tgt, v)
+        # `x = container[i]` / `x = obj.attr` (possibly through cast): x is another name for that mutable element
+        if len(s.targets) == 1 and isinstance(s.targets[0], ast.Name) and isinstance(v, SAdt) and v.sort in ("Node", "NodeList", "AttrList"):
+            src = s.value
+            if isinstance(src, ast.Call) and isinstance(src.func, ast.Name) and src.func.id == "cast" and len(src.args) == 2:
+                src = src.args[1]
+            if isinstance(src, (ast.Subscript, ast.Attribute)) and not (isinstance(src, ast.Subscript) and isinstance(src.slice, ast.Slice)):
+                self.st.aliases[s.targets[0].id] = src
 
     def stmt_AnnAssign(self, s):
         if s.value is None:
@@ -621,6 +630,8 @@ class Interp:
     def assign(self, tgt, v):
         if isinstance(tgt, ast.Name):
             self.st.env[tgt.id] = v
+            self.st.aliases.pop(tgt.id, None)
+            self.st.fresh_slots = {x for x in self.st.fresh_slots if not (x.startswith(tgt.id + ".") or x.startswith(tgt.id + "["))}
             return
         if isinstance(tgt, (ast.Tuple, ast.List)):
             items = self.iter_concrete(v, tgt)
@@ -634,7 +645,10 @@ class Interp:
             return self.set_attr(obj, tgt.attr, v, tgt)
         if isinstance(tgt, ast.Subscript):
             obj = self.eval(tgt.value)
-            return self.set_item(obj, tgt.slice, v, tgt)
+            r = self.set_item(obj, tgt.slice, v, tgt)
+            if getattr(v, "fresh", False) and not isinstance(tgt.slice, ast.Slice):
+                self.st.fresh_slots.add(ast.unparse(tgt))
+            return r
         raise Unsupported(f"assignment target {type(tgt).__name__}")
 
     def set_attr(self, obj, attr, v, node):
@@ -1001,7 +1015,10 @@ class Interp:
         if isinstance(e.slice, ast.Slice):
             return self.get_slice(obj, e.slice, e)
         k = self.eval(e.slice)
-        return self.get_item(obj, k, e)
+        r = self.get_item(obj, k, e)
+        if ast.unparse(e) in self.st.fresh_slots and isinstance(r, SAdt):
+            r = SAdt(r.sort, r.t, fresh=True, pyclass=r.pyclass)     # this slot holds an object allocated in this activation
+        return r
 
     def get_item(self, obj, k, node):
         if isinstance(obj, SAdt) and self.list_shape(obj) and isinstance(k, SInt) and z3.is_int_value(z3.simplify(k.t)):
